@@ -75,7 +75,8 @@ ParseFails(x) ==
  \cup (IF g.version = s.version /\ g.code = s.code THEN {} ELSE {"status line"})
  \cup (IF SameHeaders(AsHdrs(g.headers), eh) THEN {} ELSE {"headers"})
  \cup (IF g.body = s.body THEN {} ELSE {"body"})
- \cup (IF ~g.over /\ g.all THEN {} ELSE {"bytes consumed"})
+ \cup (IF ~g.over THEN {} ELSE {"read past the end of a framed message"})   \* (g.all - whether the last CRLF of the
+                                                                                 \* message was consumed too - is not an observable)
  \cup (IF x.haswire =>
             LET d == DenoteResp(x.wire) IN
             /\ d.ok /\ d.rest = "" /\ d.version = g.version /\ d.code = g.code /\ d.body = x.gbody
@@ -99,6 +100,7 @@ Spec == Init /\ [][Next]_<<l, bad, devs, nwire>>
 \* at the last state: print the verdicts; fail when a record was rejected
 AllExplained == (l = Len(Rec) + 1) =>
   /\ PrintT(ToJson([n |-> Len(Rec), rejected |-> bad, CrlfAfterBody |-> Len(devs),
-                    first_CrlfAfterBody |-> IF devs = <<>> THEN 0 ELSE devs[1], parsed_bytewise |-> nwire]))
+                    first_CrlfAfterBody |-> IF devs = <<>> THEN 0 ELSE devs[1], parsed_bytewise |-> nwire,
+                    unconsumed_tail |-> Cardinality({ i \in 1..Len(Rec) : Rec[i].k = "parse" /\ ~Rec[i].got.all })]))
   /\ bad = <<>>
 =============================================================================
